@@ -1,4 +1,6 @@
 """C20 - a failed or inaccurate quantile-regression solve is retried, not fatal."""
+import warnings
+
 import numpy as np
 
 from .. import cases as cases_mod
@@ -24,6 +26,61 @@ BUDGET = {"quick": 150, "thorough": 1500}
 MIN_NONTRIVIAL = {"quick": 8, "thorough": 12}
 N = {"quick": 28, "thorough": 400}
 CASE_TIMEOUT = 900
+
+
+INACCURATE_MSG = ("Solution may be inaccurate. Try another solver, adjusting the solver settings, or solve with "
+                  "verbose=True for more information.")
+_ORIGIN = {}
+
+
+class flipped_clarabel_status:
+    """While active, cvxpy's CLARABEL interface reports a solved problem as optimal_inaccurate, so that cvxpy itself
+    emits its "Solution may be inaccurate" warning from problem.solve()."""
+
+    def __enter__(self):
+        from cvxpy.reductions.solvers.conic_solvers.clarabel_conif import CLARABEL
+        from cvxpy.settings import OPTIMAL, OPTIMAL_INACCURATE
+
+        self.map = CLARABEL.STATUS_MAP
+        self.keys = [k for k, v in self.map.items() if v == OPTIMAL]
+        for k in self.keys:
+            self.map[k] = OPTIMAL_INACCURATE
+        self.restore = OPTIMAL
+        return self
+
+    def __exit__(self, *a):
+        for k in self.keys:
+            self.map[k] = self.restore
+        return False
+
+
+def inaccuracy_warning_origin():
+    """(filename, module) the installed cvxpy attributes its inaccuracy warning to when it is raised during
+    elexsolver's regularised fit - measured once with a real solve, not assumed (cvxpy >= 1.6 attributes it to the
+    first frame outside the cvxpy package, older releases to cvxpy.problems.problem)."""
+    if not _ORIGIN:
+        import sys as _sys
+        import warnings as _w
+
+        from elexsolver.QuantileRegressionSolver import QuantileRegressionSolver
+
+        rng = np.random.default_rng(0)
+        x = np.column_stack([np.ones(12), rng.normal(size=12)])
+        y = rng.normal(size=12)
+        fit = getattr(QuantileRegressionSolver.fit, "_verif_orig", None) or QuantileRegressionSolver.fit
+        with _w.catch_warnings(record=True) as rec:
+            _w.simplefilter("always")
+            with flipped_clarabel_status():
+                QuantileRegressionSolver._fit_with_regularization(QuantileRegressionSolver(), x, y, np.ones(12) / 12, 0.5,
+                                                                  1.0, False, 0)
+        hit = [r for r in rec if "inaccurate" in str(r.message)]
+        fn = hit[0].filename if hit else "<cvxpy>"
+        mod = "cvxpy.problems.problem"
+        for name, m in list(_sys.modules.items()):
+            if getattr(m, "__file__", None) == fn:
+                mod = name
+        _ORIGIN["v"] = (fn, mod)
+    return _ORIGIN["v"]
 
 
 class Injector:
@@ -78,7 +135,21 @@ class Injector:
                 ev["outcome"] = "injected:" + inj.target[1]
                 if inj.target[1] == "solver_error":
                     raise cvxpy.error.SolverError("injected by verif")
-                raise UserWarning("Solution may be inaccurate. (injected by verif)")
+                # inaccuracy: the warning must travel through the warnings machinery exactly as cvxpy's does, because
+                # whether it becomes an exception (and hence a retry) is decided by the warning filters
+                try:
+                    if (kw.get("lambda_") or 0) > 0:
+                        with flipped_clarabel_status():      # the real solve, reported "optimal_inaccurate" by cvxpy
+                            r = orig_fit(self_, x, y, *args, **kwargs)
+                    else:
+                        fn, mod = inaccuracy_warning_origin()
+                        warnings.warn_explicit(INACCURATE_MSG, UserWarning, fn, 1, module=mod, registry={})
+                        r = orig_fit(self_, x, y, *args, **kwargs)
+                    ev["outcome"] += ":warning-not-raised-solution-used"
+                    return r
+                except UserWarning:
+                    ev["outcome"] += ":raised-as-error"
+                    raise
             try:
                 r = orig_fit(self_, x, y, *args, **kwargs)
                 ev["outcome"] = "ok"
@@ -269,6 +340,7 @@ def run_case(spec, inputs=None):
                                                   msg=f"{call['pi_method']}: faults at fits {pair}: {detail}",
                                                   witness=dict(positions=pair)))
             inj.target = None
+        out["sets"]["inaccuracy_warning_attributed_to"] = [inaccuracy_warning_origin()[1]]
         out["sets"]["positions"] = sigs
         out["sigs"] = sigs
         out["nontrivial"] = bool(sigs)
